@@ -124,6 +124,8 @@ def cases(rng, tier):
         out.append({'kind': 'loops', 'nx': n, 'ny': n, 'b': b, 'ks': ks, 'transform': rng.chance(.3), 'how': rng.pick(['break', 'next'])})
         if rng.chance(.6):
             out[-1]['lay'] = _gen_layout(rng)
+    for j in range(80 if tier == 'quick' else 1500):
+        out.append(_gen_keep(rng, j))
     for _ in range(40 if tier == 'quick' else 400):
         k = rng.randint(0, 12)
         lo = rng.randint(-5, 3)
@@ -137,10 +139,15 @@ def cases(rng, tier):
     for j in range(3 * len(fams) if tier == 'quick' else 60 * len(fams)):
         out.append(_gen_labels(rng, fams[j % len(fams)]))
     for c in out:
-        c['lines'] = [_line(c)]
+        c['lines'] = [_line(c)] if c['kind'] != 'keep' else [f"data loader {c['n']} {c['n']} {b}" for b in c['bs']]
         if c.get('lay'):
             c['key'] = [c['lines'][0], repr(sorted(c['lay'].items()))]
+        if c['kind'] == 'keep':
+            c['key'] = c['lines'] + [repr(c['ops']), repr(sorted((c.get('lay') or {}).items())), c['transform']]
         c['desc'] = (c['lines'][0] + (f" [features: rows of shape {tuple(c['lay']['xs'])} in a {c['lay']['xc']}; labels: rows of shape {tuple(c['lay']['ys'])} in a {c['lay']['yc']}]" if c.get('lay') else '')) if 'fam' not in c else f"one_hot_encode of the {c['fam']} labels {c['ys']!r} ({c['dtype'] or 'python values'} in a {c['cont']}) : {c['lines'][0]}"[:700]
+    for c in out:
+        if c['kind'] == 'keep':
+            c['desc'] = f"batches kept: loaders of batch size {c['bs']} over one dataset of {c['n']} samples, ops {c['ops']}, transform={c['transform']}, layout={c.get('lay')}"
     return out
 
 
@@ -359,7 +366,7 @@ def _run_loader(c):
     X, y, lay = _lay_data(c)
     dl = DataLoader(X, y, c['b'], _mk_tf(c))
     n = len(dl)
-    passes = []
+    passes, kept = [], []
     for _ in range(2):
         bs = []
         for item in dl:
@@ -367,20 +374,93 @@ def _run_loader(c):
                 assert item[0] == 'tf'
                 item = item[1:]
             bs.append((_decode(item[0], lay['xs'], 0, 10), _decode(item[1], lay['ys'], 1000, 1)))
+            kept.append(item)                   # the caller keeps every batch (batches = list(loader)) ...
         passes.append(bs)
+    # ... and reads them again after both epochs: a batch handed out stays what it was when later ones are drawn
+    later = [(_decode(item[0], lay['xs'], 0, 10), _decode(item[1], lay['ys'], 1000, 1)) for item in kept]
+    if later != passes[0] + passes[1]:
+        return 'kept-batch-changed'
     if passes[0] != passes[1]:
         return 'reiteration-differs'
     return n, passes[0]
+
+
+# ---- batches kept by the caller ------------------------------------------------------------------------
+# A program over one or two loaders built on the SAME dataset objects (a train loader and an evaluation loader with another batch
+# size): whole epochs, abandoned epochs, direct `loader[i]`, every batch handed out is KEPT and read twice - when it is handed out
+# and after the whole program.  `mutate` writes into a kept batch in place (ndarray batches only; what that does to the dataset is
+# not the property's business - the unchanged loader hands out views -, so the samples of that batch are left out of every later
+# reading; every OTHER sample must still be found in every batch that carries it).
+KEEP_OPS = ['epoch', 'part', 'get', 'get-twice', 'mutate']
+
+
+def _gen_keep(rng, j):
+    n = rng.randint(2, 14) if j % 4 else rng.randint(4, 14)
+    bs = [rng.randint(1, max(1, n // 2))]
+    if rng.chance(.4):
+        bs.append(rng.randint(1, max(1, n // 2)))
+    ops = [['epoch', L] for L in range(len(bs))]
+    for _ in range(rng.randint(0, 5)):
+        L = rng.randrange(len(bs)); nb = n // bs[L]
+        kind = rng.pick(KEEP_OPS)
+        if kind == 'epoch': ops.append(['epoch', L])
+        elif kind == 'part': ops.append(['part', L, rng.randint(1, nb)])
+        elif kind == 'get': ops.append(['get', L, rng.randrange(nb)])
+        elif kind == 'get-twice':
+            i = rng.randrange(nb); ops += [['get', L, i], ['get', L, rng.pick([i, rng.randrange(nb)])]]
+        else: ops.append(['mutate', rng.randrange(64), rng.pick(['x', 'y', 'xy'])])
+    c = {'kind': 'keep', 'n': n, 'nx': n, 'ny': n, 'b': bs[0], 'bs': bs, 'ops': ops, 'transform': rng.chance(.3)}
+    if j % 2:
+        c['lay'] = _gen_layout(rng)
+        if j % 4 == 1: c['lay']['xc'] = c['lay']['yc'] = rng.pick(['array', 'array-f64', 'array-f32'])
+    return c
+
+
+def _run_keep(c):
+    """-> (len() of every loader, {(loader, batch index): [(op number, 'when handed out' | 'after the program', decoded batch)]})"""
+    from synapgrad.nn.utils.data import DataLoader
+    X, y, lay = _lay_data(c)
+    tf = _mk_tf(c)
+    dls = [DataLoader(X, y, b, tf) for b in c['bs']]
+    dec = lambda e: (_decode(e['X'], lay['xs'], 0, 10), _decode(e['y'], lay['ys'], 1000, 1))
+    kept, tainted = [], set()
+    def take(oi, L, i, item):
+        if c['transform']:
+            assert item[0] == 'tf'; item = item[1:]
+        e = {'op': oi, 'L': L, 'i': i, 'X': item[0], 'y': item[1], 'samples': set(range(i * c['bs'][L], (i + 1) * c['bs'][L]))}
+        e['now'] = dec(e) if not (e['samples'] & tainted) else None
+        kept.append(e)
+    for oi, op in enumerate(c['ops']):
+        if op[0] in ('epoch', 'part'):
+            for j, item in enumerate(dls[op[1]]):
+                take(oi, op[1], j, item)
+                if op[0] == 'part' and j + 1 == op[2]: break
+        elif op[0] == 'get':
+            take(oi, op[1], op[2], dls[op[1]][op[2]])
+        else:
+            e = kept[op[1] % len(kept)]
+            for w in op[2]:
+                a = e['X' if w == 'x' else 'y']
+                if isinstance(a, np.ndarray) and a.flags.writeable and a.size:
+                    a[...] = -7
+                    tainted |= e['samples']
+    obs = {}
+    for e in kept:
+        o = obs.setdefault((e['L'], e['i']), [])
+        if e['now'] is not None: o.append((e['op'], 'when handed out', e['now']))
+        if not (e['samples'] & tainted): o.append((e['op'], 'after the program', dec(e)))
+    return [len(dl) for dl in dls], obs
 
 
 def _run_loops(c):
     from synapgrad.nn.utils.data import DataLoader
     X, y, lay = _lay_data(c)
     dl = DataLoader(X, y, c['b'], _mk_tf(c))
-    loops = []
-    def conv(item):
+    loops, kept = [], []
+    def conv(item, keep=True):
         if c['transform']:
             assert item[0] == 'tf'; item = item[1:]
+        if keep: kept.append(item)
         return (_decode(item[0], lay['xs'], 0, 10), _decode(item[1], lay['ys'], 1000, 1))
     for k in c['ks']:
         seen = []
@@ -397,11 +477,28 @@ def _run_loops(c):
                 try: seen.append(conv(next(it)))
                 except StopIteration: break
         loops.append(seen)
+    if [conv(('tf',) + tuple(item) if c['transform'] else item, False) for item in kept] != [b_ for seen in loops for b_ in seen]:
+        return 'kept-batch-changed'          # read again after all loops: every batch handed out is still what it was
     return loops
 
 
 def impl(c):
     common.impl()
+    if c['kind'] == 'keep':
+        r = outcome(lambda: _run_keep(c))
+        if isinstance(r, str):
+            return [r] * len(c['bs'])
+        lens, obs = r
+        res = []
+        for L, n in enumerate(lens):
+            bs = []
+            for i in sorted(i for (l_, i) in obs if l_ == L):
+                seen = []
+                for _, _, d in obs[(L, i)]:
+                    if d not in seen: seen.append(d)
+                bs.append('!'.join(show_ints(x) + ';' + show_ints(y) for x, y in seen))
+            res.append(f"len={n} batches={'|'.join(bs) if bs else '_'}")
+        return res
     if c['kind'] == 'loops':
         r = outcome(lambda: _run_loops(c))
         if isinstance(r, str):
@@ -433,6 +530,8 @@ def nontrivial(c):
         return c['n'] > 1 and (c['seed'] is not None or 0 < c['tf'] < 1)
     if c['kind'] == 'loader':
         return c['ny'] > 0 and c['b'] > 0
+    if c['kind'] == 'keep':
+        return c['n'] // c['b'] >= 2
     if c['kind'] == 'loops':
         L = c['ny'] // c['b'] if c['b'] else 0
         return L >= 2 and any(0 < k < L for k in c['ks'][:-1])      # an abandoned loop followed by another loop
@@ -447,6 +546,9 @@ def distribution(cases):
             k += f"/{c['fam']}"
             d[f"onehot labels as {c['dtype'] or 'python values'} in a {c['cont']}"] = d.get(f"onehot labels as {c['dtype'] or 'python values'} in a {c['cont']}", 0) + 1
         d[k] = d.get(k, 0) + 1
+        if c['kind'] == 'keep':
+            for k2 in sorted(set(f"keep (batches kept and read again after the program) op/{o[0]}" for o in c['ops'][len(c['bs']):])) + [f"keep: loaders over one dataset/{len(c['bs'])}", f"keep: batches per epoch/{min(c['n'] // c['b'], 4)}{'+' if c['n'] // c['b'] >= 4 else ''}"]:
+                d[k2] = d.get(k2, 0) + 1
         if c['kind'] != 'onehot':
             lay = c.get('lay')
             for k2 in ([f"{c['kind']}: plain 1-d arrays"] if not lay else
@@ -487,7 +589,7 @@ def oracle(c):
         if c['b'] == 0:
             return None
         if isinstance(r, str):
-            return {'key': {'kind': 'loader', 'class': r, 'transform': c['transform']}, 'case': c, 'what': f'loader {r}'}
+            return {'key': {'kind': 'loader', 'class': r, 'transform': c['transform']}, 'case': c, 'what': f'loader {r}' + (' (the batches of two epochs, kept in a list and read after the second epoch, no longer hold their samples)' if r == 'kept-batch-changed' else '')}
         n, bs = r
         want = c['ny'] // c['b']
         if n != want or len(bs) != want:
@@ -498,12 +600,28 @@ def oracle(c):
                 if x != exp or y != exp:
                     return {'key': {'kind': 'loader', 'class': 'batch'}, 'case': c, 'what': f'batch {i} is {x};{y}, expected {exp}'}
         return None
+    if c['kind'] == 'keep':
+        r = outcome(lambda: _run_keep(c))
+        cc = {k: v for k, v in c.items() if k not in ('lines', 'desc', 'key')}
+        if isinstance(r, str):
+            return {'key': {'kind': 'keep', 'class': 'rejected'}, 'case': cc, 'what': 'iterating / indexing the loader raised'}
+        lens, obs = r
+        for L, b in enumerate(c['bs']):
+            if lens[L] != c['n'] // b or sorted(i for (l_, i) in obs if l_ == L) != list(range(c['n'] // b)):
+                return {'key': {'kind': 'keep', 'class': 'count'}, 'case': cc, 'what': f"loader {L} (batch size {b} over {c['n']} samples): len()={lens[L]}, batches seen {sorted(i for (l_, i) in obs if l_ == L)}"}
+        for (L, i), o in sorted(obs.items()):
+            exp = list(range(i * c['bs'][L], (i + 1) * c['bs'][L]))
+            for oi, when, d in o:
+                if d != (exp, exp):
+                    return {'key': {'kind': 'keep', 'class': 'batch ' + when}, 'case': cc,
+                            'what': f"batch {i} of loader {L} (batch size {c['bs'][L]}), handed out by op {oi} {c['ops'][oi]} and read {when} {c['ops']}, holds samples {d[0]};{d[1]} (features;labels, -1 = not a sample), expected {exp}"}
+        return None
     if c['kind'] == 'loops':
         if c['b'] == 0:
             return None
         r = outcome(lambda: _run_loops(c))
         if isinstance(r, str):
-            return {'key': {'kind': 'loops', 'class': 'rejected'}, 'case': c, 'what': 'iterating the loader raised'}
+            return {'key': {'kind': 'loops', 'class': r}, 'case': c, 'what': 'iterating the loader raised' if r == 'rejected' else 'a batch kept by the caller no longer holds its samples after later batches were drawn'}
         L = c['ny'] // c['b']
         for j, (k, seen) in enumerate(zip(c['ks'], r)):
             exp = [(list(range(i * c['b'], (i + 1) * c['b'])),) * 2 for i in range(min(k, L))]
